@@ -5,8 +5,8 @@ ENTRY = dict(
          "server and n to one whose CurvePreferences = [P-384] forces a HelloRetryRequest (quick: 150+150 = 300 per parrot), loopback "
          "TCP, client writes recorded, first and second ClientHello parsed back. Go-side oracle on every connection (well-formed outer "
          "ECH, candidate suite, 32-byte enc, candidate length + 16, identical bytes after HRR, no repeat of enc/payload across "
-         "connections); the proven Coq oracle predicate on every 30th and the model (draws read back from the wire; three Reads) on "
-         "every 15th connection (Coq elaborates 250-byte literals slowly). Distinct by (parrot, server kind, connection); non-trivial = oracle cases and HRR model cases.",
+         "connections); the proven Coq oracle predicate on every 50th and the model (draws read back from the wire; three Reads) on "
+         "every 25th connection (Coq elaborates 250-byte literals slowly). Plus 8 custom specs (a parrot spec whose GREASE ECH candidate lists are replaced: three pairs with distinct KDFs and AEADs on Chrome_133 and Firefox_120, a single pair, empty lists = default pair/128, a config-id list, three seeded random non-mix-closed pair lists with 1..4 payload lengths), n/5 plain + n/15 HRR connections each, Coq oracle every 10th and model every 3rd. Distinct by (client, server kind, connection); non-trivial = oracle cases and HRR model cases.",
     trusted_base=["ClientHello / record parser of the runner", "crypto/rand and hpke.SetupSender (their outputs are the model's inputs)",
                   "Go server side of utls as test equipment (HelloRetryRequest)"],
     assumes=["candidate AEAD ids are HPKE AEADs 1..3 and candidate payload lengths + 16 fit a u16 (true for every parrot; an unknown "
